@@ -34,6 +34,7 @@ Record heap := {
   h_cons : list nat;             (* subpath / subset constraints *)
   h_ign : list nat;              (* elements_to_ignore *)
   h_starts : list nat; h_ends : list nat;
+  h_sup : list nat;              (* solution_weights_superset: every class copies nothing and only reads it (indexing, len, max) *)
   h_defaults : list nat;         (* the mutable default-argument objects ([] / {}) of all classes, as an event log *)
 }.
 
@@ -78,10 +79,10 @@ Record op := { o_cls : cls; o_pass_opts : bool; o_sup : bool; o_hc : bool; o_sol
 
 Definition with_opts (h : heap) (d : dict) : heap :=
   {| h_graph := h_graph h; h_opts := d; h_has_ext := h_has_ext h; h_ext := h_ext h; h_sopts := h_sopts h; h_cons := h_cons h;
-     h_ign := h_ign h; h_starts := h_starts h; h_ends := h_ends h; h_defaults := h_defaults h |}.
+     h_ign := h_ign h; h_starts := h_starts h; h_ends := h_ends h; h_sup := h_sup h; h_defaults := h_defaults h |}.
 Definition with_ext (h : heap) (l : list nat) : heap :=
   {| h_graph := h_graph h; h_opts := h_opts h; h_has_ext := h_has_ext h; h_ext := l; h_sopts := h_sopts h; h_cons := h_cons h;
-     h_ign := h_ign h; h_starts := h_starts h; h_ends := h_ends h; h_defaults := h_defaults h |}.
+     h_ign := h_ign h; h_starts := h_starts h; h_ends := h_ends h; h_sup := h_sup h; h_defaults := h_defaults h |}.
 
 (* option VALUES that are lists.  AbstractPathModelDAG.__init__ (abstractpathmodeldag.py:241-267):
        self.safe_lists = self.external_safe_paths                      <- the caller's list, not a copy (5ed9792 copies the dict shallowly)
@@ -128,10 +129,10 @@ Definition old_run := run_gen old_opts_hold.
    constructor writes itself are overwritten by it), together with the other argument values *)
 Definition written_by_ctors (k : key) : bool := match k with KUser _ => false | KTrusted => false | _ => true end.
 Record view := { v_opts : dict; v_ext : list nat; v_graph : list nat; v_sopts : list nat; v_cons : list nat; v_ign : list nat;
-                 v_starts : list nat; v_ends : list nat }.
+                 v_starts : list nat; v_ends : list nat; v_sup : list nat }.
 Definition view_of (h : heap) (o : op) : view :=
   {| v_opts := if o_pass_opts o then h_opts h else []; v_ext := if o_pass_opts o && h_has_ext h then h_ext h else []; v_graph := h_graph h; v_sopts := h_sopts h; v_cons := h_cons h;
-     v_ign := h_ign h; v_starts := h_starts h; v_ends := h_ends h |}.
+     v_ign := h_ign h; v_starts := h_starts h; v_ends := h_ends h; v_sup := if o_sup o then h_sup h else [] |}.
 (* a model's result is a function of the class and of what it saw (the solver is deterministic, §4) *)
 Definition model_of (h : heap) (o : op) : cls * view := (o_cls o, view_of h o).
 
